@@ -16,6 +16,7 @@ type C07Case struct {
 	// Conditions (addressed by path in the tree as built) whose expression is re-assigned with SetExpression before
 	// any path is tried: the tree Traverse walks is the tree as it is now, not as it was assembled
 	Reassign []C07Re `json:"reassign,omitempty"`
+	InPolicy bool    `json:"inpolicy,omitempty"` // the paths are additionally tried from inside a push policy of the root (its lock held)
 }
 
 type C07Re struct {
@@ -161,45 +162,79 @@ func runC07(c C07Case) (st Stats, err error) {
 		rec(nil)
 		st.Class("all-paths<=3")
 	}
-	for _, path := range paths {
-		st.Sub++
-		wantV, wantOK, info := refTraverse(root, path)
-		var gotV any
-		var gotOK bool
-		if p := guard(func() { gotV, gotOK = root.Traverse(path...) }); p != "" {
-			return st, violf("traverse/panic", "Traverse(%v) panicked: %s (tree %s)", path, p, c.Root.Brief())
-		}
-		key := "traverse"
-		if info.failStep >= 0 {
-			key = fmt.Sprintf("traverse/%s-then-later", info.failClass)
-			if info.laterHitsStk {
-				key += "-stack"
+	evalPaths := func() error {
+		for _, path := range paths {
+			st.Sub++
+			wantV, wantOK, info := refTraverse(root, path)
+			var gotV any
+			var gotOK bool
+			if p := guard(func() { gotV, gotOK = root.Traverse(path...) }); p != "" {
+				return violf("traverse/panic", "Traverse(%v) panicked: %s (tree %s)", path, p, c.Root.Brief())
 			}
-		}
-		if gotOK != wantOK || normIdent(gotV) != normIdent(wantV) {
-			return st, violf(key, "Traverse(%v)=(%s,%v), stepwise Index descent gives (%s,%v); tree %s", path, normIdent(gotV), gotOK, normIdent(wantV), wantOK, c.Root.Brief())
-		}
-		if !gotOK && gotV != nil {
-			return st, violf(key+"/value-on-failure", "Traverse(%v) failed but returned %s", path, normIdent(gotV))
-		}
-		if info.failStep >= 0 {
-			st.Class("fails-at-" + info.failClass)
-			if len(path) >= 2 && info.failStep < len(path)-1 && info.laterHits {
-				st.NonTrivial = true
-				st.Class("fail-then-later-index-hits")
+			key := "traverse"
+			if info.failStep >= 0 {
+				key = fmt.Sprintf("traverse/%s-then-later", info.failClass)
 				if info.laterHitsStk {
-					st.Class("fail-then-later-index-hits-stack")
+					key += "-stack"
 				}
 			}
-		} else {
-			st.Class(fmt.Sprintf("succeeds-depth-%d", info.depth))
+			if gotOK != wantOK || normIdent(gotV) != normIdent(wantV) {
+				return violf(key, "Traverse(%v)=(%s,%v), stepwise Index descent gives (%s,%v); tree %s", path, normIdent(gotV), gotOK, normIdent(wantV), wantOK, c.Root.Brief())
+			}
+			if !gotOK && gotV != nil {
+				return violf(key+"/value-on-failure", "Traverse(%v) failed but returned %s", path, normIdent(gotV))
+			}
+			if info.failStep >= 0 {
+				st.Class("fails-at-" + info.failClass)
+				if len(path) >= 2 && info.failStep < len(path)-1 && info.laterHits {
+					st.NonTrivial = true
+					st.Class("fail-then-later-index-hits")
+					if info.laterHitsStk {
+						st.Class("fail-then-later-index-hits-stack")
+					}
+				}
+			} else {
+				st.Class(fmt.Sprintf("succeeds-depth-%d", info.depth))
+			}
+			if info.viaAlias {
+				st.Class("through-alias")
+			}
+			if info.negIndex {
+				st.Class("negative-index")
+			}
 		}
-		if info.viaAlias {
-			st.Class("through-alias")
+		return nil
+	}
+	if c.InPolicy {
+		// the same comparison from INSIDE a push policy of the root (mutex enabled): the closure runs while the root's
+		// lock is held - a duplicate guard that consults the existing content does exactly this
+		var inner error
+		called := false
+		if p := guard(func() {
+			root.SetMutex()
+			root.SetPushPolicy(func(...any) error {
+				called = true
+				inner = evalPaths()
+				return errValidityRejects
+			})
+			root.Push("probe")
+			root.SetPushPolicy(nil)
+			root.SetErr(nil)
+		}); p != "" {
+			return st, violf("traverse/in-policy/panic", "%s", p)
 		}
-		if info.negIndex {
-			st.Class("negative-index")
+		if inner != nil {
+			if v, ok := inner.(*Violation); ok {
+				v.Key = "in-policy/" + v.Key
+			}
+			return st, inner
 		}
+		if called {
+			st.Class("paths-tried-while-the-root-lock-is-held")
+		}
+	}
+	if err := evalPaths(); err != nil {
+		return st, err
 	}
 	return st, nil
 }
@@ -285,6 +320,7 @@ func genC07(t *rapid.T, tier Tier) C07Case {
 		c.Paths = append(c.Paths, p)
 	}
 	c.AllPaths = c.Root.Count() <= 14 && rapid.IntRange(0, 3).Draw(t, "allpaths") == 0
+	c.InPolicy = rapid.IntRange(0, 3).Draw(t, "inpolicy") == 0
 	if cps := condPaths(c.Root, nil); len(cps) > 0 && rapid.IntRange(0, 2).Draw(t, "reassign?") == 0 {
 		for k := rapid.IntRange(1, 2).Draw(t, "nre"); k > 0; k-- {
 			re := C07Re{Path: rapid.SampledFrom(cps).Draw(t, "repath")}
